@@ -4,7 +4,8 @@
 From Coq Require Import PrimFloat.
 Require Import D42.Prelude D42.PyFloat D42.Value D42.Regex D42.Schema D42.Validate D42.Conforms
                D42.FromNative D42.Agree.
-Require Import D42P.ValidateSpec D42P.FromNativeSpec.
+Require Import D42.PyRandom D42.RegexGen D42.Generate.
+Require Import D42P.ValidateSpec D42P.FromNativeSpec D42P.GenFromNative.
 
 (* Which values are converted: exactly the plain ones (None, bool, int, float, str, bytes,
    version-4 UUID, datetime, date, lists and dicts of those, no `...` key); every other
@@ -50,6 +51,13 @@ Proof.
   apply (verdict_iff_conforms_lemma s (fn_wf_lemma v s Hw Hs)). exact Hv.
 Qed.
 Print Assumptions fn_rejects_different_verdict.
+
+(* ... and generates exactly that value, for every world and every tape, consuming no
+   random draw (the rest of the tape is the tape). *)
+Theorem fn_generates_exactly :
+  forall w v s, from_native v = Ok s -> forall t, gen w s t = Ok (v, t).
+Proof. intros w v s H t. exact (gen_from_native_lemma w v s H t). Qed.
+Print Assumptions fn_generates_exactly.
 
 (* The NaN exclusion is needed: the faithful model rejects NaN against its own schema. *)
 Theorem fn_accepts_refuted_for_nan :
